@@ -27,6 +27,12 @@ fn contexts() -> Vec<Vec<SixlowpanAddressContext>> {
     ]
 }
 
+/// in fe80::/10 but not in fe80::/64
+fn wide_ll(a: &Ipv6Address) -> bool {
+    let o = a.octets();
+    o[0] == 0xfe && o[1] & 0xc0 == 0x80 && o[..8] != [0xfe, 0x80, 0, 0, 0, 0, 0, 0]
+}
+
 // ----------------------------------------------------------------------------------- IPHC
 /// Ctx = (link-layer source, link-layer destination, address contexts) handed to `parse`;
 /// for generated values the link-layer addresses are the Repr's own.
@@ -40,14 +46,30 @@ impl Rt for Iphc {
         4
     }
     fn chunk(tier: Tier, i: usize) -> Vec<(SixlowpanIphcRepr, IphcCtx)> {
+        // fe80::/10 but not fe80::/64 ("link-local" by the prefix RFC 4291 reserves, yet not
+        // of the fe80::/64 form the stateless IPHC modes can rebuild), with the three
+        // interface-identifier forms the compressor distinguishes: derived from the extended
+        // link-layer address, the 0000:00ff:fe00:XXXX short-address form, arbitrary
+        let wide = [
+            Ipv6Address::new(0xfe80, 0, 0, 1, 0x0011, 0x2233, 0x4455, 0x6677), // IID = EUI-64 of E1
+            Ipv6Address::new(0xfe90, 0, 0, 0, 0, 0xff, 0xfe00, 0x1234),        // IID = short form of S1
+            Ipv6Address::new(0xfebf, 0xffff, 0, 0, 0, 0, 0, 1),                // arbitrary IID
+            Ipv6Address::new(0xfe80, 0, 0, 1, 0, 0, 0, 0xabcd),
+            Ipv6Address::new(0xfe90, 0, 0, 0, 0, 0xff, 0xfe00, 0xbeef),
+        ];
         let srcs = [
             Ipv6Address::new(0xfe80, 0, 0, 0, 0x0011, 0x2233, 0x4455, 0x6677), // = EUI-64 of E1
             Ipv6Address::new(0, 0, 0, 0, 0, 0, 0, 0),
             Ipv6Address::new(0x2001, 0xdb8, 0, 0, 0, 0, 0, 1),
             Ipv6Address::new(0xfe80, 0, 0, 0, 0, 0xff, 0xfe00, 0x1234), // = short address S1
+            wide[0],
+            wide[1],
+            wide[2],
             Ipv6Address::new(0xfe80, 0, 0, 0, 0, 0, 0, 1),
             Ipv6Address::new(0xfe80, 0, 0, 0, 0, 0xff, 0xfe00, 0xffff),
             Ipv6Address::new(0, 0, 0, 0, 0, 0, 0, 1),
+            wide[3],
+            wide[4],
         ];
         let dsts = [
             Ipv6Address::new(0xfe80, 0, 0, 0, 0x0011, 0x2233, 0x4455, 0x6677),
@@ -55,10 +77,15 @@ impl Rt for Iphc {
             Ipv6Address::new(0x2001, 0xdb8, 0, 0, 0, 0, 0, 1),    // full
             Ipv6Address::new(0xff0e, 1, 0, 0, 0, 0, 0, 1),        // multicast, no compressed form
             Ipv6Address::new(0xfe80, 0, 0, 0, 0, 0xff, 0xfe00, 0x1234),
+            wide[0],
+            wide[1],
+            wide[2],
             Ipv6Address::new(0xff02, 0, 0, 0, 0, 1, 0xff00, 1),   // 48-bit multicast form
             Ipv6Address::new(0xff05, 0, 0, 0, 0, 0, 1, 3),        // 32-bit multicast form
             Ipv6Address::new(0xfe80, 0, 0, 0, 0, 0, 0, 1),        // 64-bit form
             Ipv6Address::new(0, 0, 0, 0, 0, 0, 0, 0),
+            wide[3],
+            wide[4],
         ];
         let nhs = [
             SixlowpanNextHeader::Compressed,
@@ -73,9 +100,9 @@ impl Rt for Iphc {
             return vec![];
         }
         let mut v = vec![];
-        for s in pick(tier, &srcs, 4) {
+        for s in pick(tier, &srcs, 7) {
             for ls in pick(tier, &lls(), 3) {
-                for d in pick(tier, &dsts, 5) {
+                for d in pick(tier, &dsts, 8) {
                     for ld in pick(tier, &lls(), 3) {
                         for hl in pick(tier, &[64u8, 2, 1, 255, 0], 3) {
                             for tf in pick(tier, &tfs, 2) {
@@ -119,12 +146,16 @@ impl Rt for Iphc {
             }
         } else if d[..8] == [0xfe, 0x80, 0, 0, 0, 0, 0, 0] {
             "ucast-ll".into()
+        } else if wide_ll(&r.dst_addr) {
+            "ucast-fe80/10".into()
         } else {
             "ucast-full".into()
         }
     }
     fn sig_tag(r: &SixlowpanIphcRepr) -> String {
-        if Self::tag(r) == "mcast-full" {
+        if wide_ll(&r.src_addr) || wide_ll(&r.dst_addr) {
+            "addr-in-fe80-10-outside-fe80-64".into()
+        } else if Self::tag(r) == "mcast-full" {
             "dst-multicast-without-compressed-form".into()
         } else {
             String::new()
@@ -189,7 +220,7 @@ impl Rt for Iphc {
         v
     }
     fn domain_doc() -> &'static str {
-        "emit side: src {link-local = EUI-64 of the extended ll address, ::, global, link-local = short ll address form, link-local other, link-local short form other, ::1} x ll_src {extended, None, short, Absent, broadcast short, other extended} x dst {the same unicast kinds + multicast in the 8-, 32-, 48-bit forms and one multicast with no compressed form, ::} x ll_dst(6) x next_header {Compressed, Udp, Icmpv6, Unknown(0xfe)} x hop_limit {0,1,2,64,255} x (ecn,dscp,flow_label) in the four shapes of the TF field; parse side (hand-made catalogue): all 8192 IPHC base headers (every TF/NH/HLIM/CID/SAC/SAM/M/DAC/DAM combination) followed by in-line bytes, x 3 CID bytes x 4 link-layer address pairs (extended/short, none, short/extended, absent) x context tables of 2, 0 and 1 entries"
+        "emit side: src {link-local = EUI-64 of the extended ll address, ::, global, link-local = short ll address form, link-local other, link-local short form other, ::1, and 5 addresses in fe80::/10 outside fe80::/64 (fe80:0:0:1::/64, fe90::/16, febf:ffff::/32) with interface identifiers of the three forms: derived from the ll address, 0000:00ff:fe00:XXXX, arbitrary} x ll_src {extended, None, short, Absent, broadcast short, other extended} x dst {the same unicast kinds (incl. the 5 fe80::/10 ones) + multicast in the 8-, 32-, 48-bit forms and one multicast with no compressed form, ::} x ll_dst(6) x next_header {Compressed, Udp, Icmpv6, Unknown(0xfe)} x hop_limit {0,1,2,64,255} x (ecn,dscp,flow_label) in the four shapes of the TF field; parse side (hand-made catalogue): all 8192 IPHC base headers (every TF/NH/HLIM/CID/SAC/SAM/M/DAC/DAM combination) followed by in-line bytes, x 3 CID bytes x 4 link-layer address pairs (extended/short, none, short/extended, absent) x context tables of 2, 0 and 1 entries"
     }
 }
 
